@@ -630,6 +630,7 @@ inductive Ev
   | invalid (c : ConnId)            -- bytes that do not form a valid message: the loader disconnects
   | close (c : ConnId)
   | timeout                          -- the configured reply timeout has elapsed for every pending reply
+  | expire (due : List Pending)      -- … for these pending replies only (whoever keeps the time says which: `Timed`)
   | stall (c : ConnId) (on : Bool)   -- c stops reading and its queue fills up / c has caught up again
   deriving Inhabited
 
@@ -727,6 +728,12 @@ def dispatch (tbl : List IfaceRow) (b : Bus) (c : ConnId) (m0 : Msg) : Tx :=
 def expireAll (b : Bus) : Tx :=
   b.pending.foldl (fun t p => sendError t p.caller (fakeCall p.serial) .noReply) ({ bus := { b with pending := [] } } : Tx)
 
+/-- `do_expiration_with_monotonic_time` over the pending replies: every entry that is due goes, in
+    list order, and its caller gets NoReply; the others stay as they are -/
+def expireWhere (b : Bus) (due : Pending → Bool) : Tx :=
+  (b.pending.filter due).foldl (fun t p => sendError t p.caller (fakeCall p.serial) .noReply)
+    ({ bus := { b with pending := b.pending.filter fun p => !due p } } : Tx)
+
 def step (tbl : List IfaceRow) (b : Bus) : Ev → Tx
   | .connect c uid gids canFd =>
     if (b.conn? c).isSome then { bus := b }
@@ -735,6 +742,7 @@ def step (tbl : List IfaceRow) (b : Bus) : Ev → Tx
   | .invalid c => if (b.conn? c).isNone then { bus := b } else dropConn b c
   | .close c => disconnect b c
   | .timeout => expireAll b
+  | .expire due => expireWhere b (due.contains ·)
   | .stall c on => { bus := { b with full := if on then c :: b.full.filter (· != c) else b.full.filter (· != c) } }
 
 def run (tbl : List IfaceRow) (b : Bus) (evs : List Ev) : Bus × List (List Out) :=
